@@ -55,6 +55,12 @@ CHECKS = {
  "C19": dict(technique="TLA+ spec (KauriPrint.tla: printing grammar, reader, read-back = routing theorem) on every final tree of the Kauri.fit state machine; real print_kauri_tree output parsed and compared token by token",
              text="The printed text is specified as a token sequence of the node table together with a reader that only knows the text; TLC proves read-back = routing on every final tree it reaches, and the real function's stdout for installed and really fitted trees is parsed strictly, compared with the tokens, applied to grid points against predict, with the feature-name and unfitted/foreign-object guards.",
              note="integer thresholds in the spec (fractional via scaling of installed trees)", ref="DESIGN §4 C19"),
+ "C04": dict(technique="TLA+ configuration-space spec (Config.tla: in-domain representatives, combination rules, post-state) sampled deterministically by TLC; every valid draw fitted for real and trace-validated against TrainTrace with a coherence predicate",
+             text="The cross product of valid hyperparameter values x dataset classes of the 18 estimators is specified in TLA+; TLC draws a seed-dependent sample (validity decided by TLC); every draw must fit without raising, its execution must be a behaviour of Train (max_iter epochs, n_iter_) and its final state coherent (labels in range, probability rows, predict = argmax = labels_, score = GEMINI(predict_proba), optimiser = solver; Kauri: contiguous labels, tree, predict = labels_).",
+             note="sampled cross product (1500 draws quick, 12000 thorough), max_iter <= 3, n <= 8", ref="DESIGN §4 C04"),
+ "C17": dict(technique="Config.tla with the awkward dataset families sampled by TLC; real fits and paths trace-validated (TrainTrace/PathTrace) with Finite required at every optimiser/proximal/validation step; one-hot sweep of the 13 GEMINIs",
+             text="Degenerate and badly scaled but legal inputs (x1000, x1e-6, constant/duplicated columns, duplicated or identical samples, K=n, K=1, batches of one) crossed with estimators and GEMINIs are drawn by TLC; Finite is a clause of every Update, Prox, validation and Finish event of the trace specifications, so a NaN produced and later collapsed into a one-cluster answer is rejected at the first non-finite state.",
+             note="finiteness evaluated by the recorder on the real arrays; scales up to 1000", ref="DESIGN §4 C17"),
 }
 def main():
     checks = []
